@@ -93,7 +93,11 @@ pub fn render(s: &TypeSpec) -> Option<Rendered> {
 }
 
 pub fn run(ctx: &Ctx) -> i32 {
-    let b = Behaviour {
+    crate::props::behave::run(ctx, &behaviour())
+}
+
+pub fn behaviour() -> Behaviour {
+    Behaviour {
         prop: "C05",
         rule: "structs and enums with Hash educed and per-field ignore/method; observed through a recording Hasher (every write_* call with its bytes): \
                the call sequence must end with the concatenation, in declaration order, of each non-ignored field's own sequence (own Hash or custom \
@@ -108,6 +112,5 @@ pub fn run(ctx: &Ctx) -> i32 {
         thorough: 8000,
         batch: 25,
         assumptions: &["what the variant prefix looks like is not fixed by the statement and not by the oracle"],
-    };
-    crate::props::behave::run(ctx, &b)
+    }
 }
